@@ -26,6 +26,8 @@ def run(ctx: Ctx, chk) -> None:
     chk.run_rule(wrap_cond, ctx)
     chk.run_rule(writers1, ctx)
     chk.run_rule(dispatch1, ctx)
+    chk.run_rule(lambda c, k: tables.dispatch_total_rule(c, k, "incoming"), ctx)
+    chk.run_rule(tables.handler_state_rule, ctx)
 
 
 def message_term(ctx: Ctx, f: FuncInfo, e: ast.expr):
@@ -143,11 +145,17 @@ def reply_table(ctx: Ctx, chk) -> None:
             g = CFG(f.node)
             cn = Canon(I, f)
             cnodes = g.nodes_where(lambda x: x.contains(call))
-            ts = [t for t in g.nodes if t.kind == "test" and cnodes and all(g.dominates(t, c) for c in cnodes) and cn.canon(t.ast) in guards[f.name]]
+            def negation(txt: str) -> str:
+                if txt.endswith(" is not None"):
+                    return txt[: -len(" is not None")] + " is None"
+                return f"not {txt}"
+
             ok = False
-            for t in ts:
-                false_starts = [s for s, lab in t.succ if lab == "f"]
-                if g.reach_avoiding(false_starts, lambda x: x in cnodes, lambda x, t=t: x is t, from_succ=False) is None:
+            for t in [t for t in g.nodes if t.kind == "test" and cnodes and all(g.dominates(t, c) for c in cnodes)]:
+                txt = cn.canon(t.ast)
+                pol = sb.branch_polarity(g, t, cnodes)
+                # `if <guard>: send` or `if <not guard>: return ... send`
+                if (txt in guards[f.name] and pol is True) or (txt in {negation(x) for x in guards[f.name]} and pol is False):
                     ok = True
             if ok:
                 chk.ok(rule, key + "::condition", f"sent only if {guards[f.name][0]}", loc)
